@@ -205,23 +205,41 @@ def run(repo: Repo, chk: Check, thorough: bool = False) -> None:
            'o.parent.resolveName(str_base)' if ok else
            f'`{norm(rs[0]) if rs else "?"}` resolves the base name inside the class itself: a member named like the first component of the base '
            'expression hides the real base, which drops out of the linearisation', ifb.loc)
-    strip = [n for n in vc.walk() if isinstance(n, ast.If) and any(isinstance(s, ast.Assign) and norm(s.value).endswith('.value') and
-             'base' in norm(s.value) for s in n.body)]
-    ok = bool(strip) and all(isinstance(n.test, ast.Call) and call_name(n.test) == 'isinstance' and 'ast.Subscript' in norm(n.test) for n in strip)
+    # either spelling: `if isinstance(b, ast.Subscript): name = b.value` or `name = b.value if isinstance(b, ast.Subscript) else b`
+    strip = [n for n in vc.walk() if (isinstance(n, ast.If) and any(isinstance(s, ast.Assign) and norm(s.value).endswith('.value') and
+                                                                      'base' in norm(s.value) for s in n.body)) or
+             (isinstance(n, ast.IfExp) and ((norm(n.body).endswith('.value') and 'base' in norm(n.body)) or (norm(n.orelse).endswith('.value') and 'base' in norm(n.orelse))))]
+
+    def _sub_test(t: ast.AST) -> bool:
+        while isinstance(t, ast.UnaryOp) and isinstance(t.op, ast.Not):
+            t = t.operand
+        return isinstance(t, ast.Call) and call_name(t) == 'isinstance' and 'ast.Subscript' in norm(t)
+    ok = bool(strip) and all(_sub_test(n.test) for n in strip)
     chk.ob('R05.4', 'ModuleVistor.visit_ClassDef :: generic subscripts are stripped from every base', ok,
            'if isinstance(base_node, ast.Subscript): name_node = base_node.value' if ok else
            f'the subscript is only stripped under `{norm(strip[0].test)[:70] if strip else "?"}`: other generic bases (e.g. mod.Base[int]) stay '
            'unresolvable strings and vanish from the MRO', vc.loc)
     # Python drops an explicit `Generic[T]` base when ANY later base is a subscripted generic (typing._GenericAlias.__mro_entries__: `for b in bases[i+1:]`).
     # The branch of compute_mro.localbases that leaves `Generic` out has to look at all the bases that follow, not at a fixed neighbour
-    lb = repo.func(f'{M}.compute_mro.localbases')
-    gtests = [n for n in lb.walk() if isinstance(n, ast.If) and any(isinstance(c, ast.Constant) and c.value == 'typing.Generic' for c in ast.walk(n.test))]
-    if not gtests:
+    lb0 = repo.func(f'{M}.compute_mro.localbases')
+    mm0 = repo.mod(M)
+    # the decision may sit in localbases itself, in a helper it calls, and the two names of Generic in a module constant: find the function that
+    # compares a base name with 'typing.Generic' (directly or through such a constant) and is localbases or one of its callees
+    gconsts = {k for k, v in mm0.assigns.items() if any(isinstance(c, ast.Constant) and c.value == 'typing.Generic' for c in ast.walk(v))}
+
+    def _names_generic(e: ast.AST) -> bool:
+        return any((isinstance(c, ast.Constant) and c.value == 'typing.Generic') or (isinstance(c, ast.Name) and c.id in gconsts) for c in ast.walk(e))
+    callees0 = {call_name(c) for c in calls_in(lb0)}
+    deciders = [g for g in repo.funcs.values() if g.mod is mm0 and (g is lb0 or (g.name in callees0 and g.cls is None and g.outer is None)) and
+                any(isinstance(x, (ast.Compare, ast.Call)) and _names_generic(x) for x in g.walk())]
+    if not deciders:
         raise AnalysisError('R05.4: the branch of compute_mro.localbases that drops an explicit Generic[...] base was not found')
-    for n in gtests:
-        # the test itself, plus the values of the locals it reads (`next_base = rawbases[i+1][1] ...`)
-        read = {x.id for x in ast.walk(n.test) if isinstance(x, ast.Name)}
-        exprs: List[ast.AST] = [n.test] + [a.value for a in lb.walk() if isinstance(a, ast.Assign) and any(isinstance(t, ast.Name) and t.id in read for t in a.targets)]
+    for lb in deciders:
+        # every expression of the deciding function that takes part in the decision: tests, values of locals, returned expressions
+        n = next((x for x in lb.walk() if isinstance(x, (ast.If, ast.Return, ast.Assign)) and _names_generic(x)), lb.node)
+        read = {x.id for x in lb.walk() if isinstance(x, ast.Name)}
+        exprs: List[ast.AST] = [x.test for x in lb.walk() if isinstance(x, (ast.If, ast.IfExp))] + [x.value for x in lb.walk() if isinstance(x, ast.Return) and x.value is not None] + \
+            [a.value for a in lb.walk() if isinstance(a, ast.Assign)]
 
         def open_tail(x: ast.AST) -> bool:
             return (isinstance(x, ast.Subscript) and isinstance(x.slice, ast.Slice) and x.slice.upper is None and x.slice.lower is not None) or \
@@ -440,8 +458,17 @@ def check_r05_10(repo: Repo, chk: Check) -> None:
     lb = repo.funcs.get(f'{M}.compute_mro.localbases')
     if lb is None:
         raise AnalysisError('R05.10: compute_mro.localbases not found')
-    knows = any(isinstance(x, ast.Constant) and isinstance(x.value, str) and x.value.endswith('Generic') for x in lb.walk()) and \
-        any(isinstance(x, ast.Attribute) and x.attr == 'Subscript' for x in lb.walk())
+    # (the decision may live in localbases or in a module-level helper it calls, the names of Generic in a module constant)
+    cal10 = {call_name(c) for c in calls_in(lb)}
+    scope10: List[ast.AST] = list(lb.walk())
+    for g in repo.funcs.values():
+        if g.mod is lb.mod and g.name in cal10 and g.cls is None and g.outer is None:
+            scope10 += list(g.walk())
+    for k_, v_ in lb.mod.assigns.items():
+        if any(isinstance(x, ast.Name) and x.id == k_ for x in scope10):
+            scope10 += list(ast.walk(v_))
+    knows = any(isinstance(x, ast.Constant) and isinstance(x.value, str) and x.value.endswith('Generic') for x in scope10) and \
+        any(isinstance(x, ast.Attribute) and x.attr == 'Subscript' for x in scope10)
     chk.ob('R05.10', f'{M}.compute_mro.localbases :: Generic[...] followed by a subscripted base is left out, as typing does', knows,
            'handled' if knows else
            '`typing.Generic` is merged like any other base: `class Impl(Generic[T], Named[T], Box[T])`, which CPython accepts, is reported as inconsistent and gets '
